@@ -9,7 +9,7 @@ R5 span-scoped directives: enter pushes / exit pops under the same predicate; cl
 """
 from rulekit import Facts, where
 from rulekit.sym import PathEval, show
-from rulekit.query import field_users, guards_of, closure_of_term, norm_cmp, recv_fields
+from rulekit.query import relation_held, field_users, guards_of, closure_of_term, norm_cmp, recv_fields
 
 D = "tracing_subscriber::filter::directive::"
 E = "tracing_subscriber::filter::env::"
@@ -241,8 +241,12 @@ def r3(ck, F):
                     t = show(c[0])
                     if "field_names" in t and t.startswith("is_empty("):
                         return c[1] != 0
-                    if "field_names" in t and "len(" in t and (" Eq 0)" in t):
-                        return c[1] != 0
+                    if "field_names" in t and "len(" in t:
+                        r = relation_held(t, c[1])      # len == 0, 0 == len, len != 0, len > 0, 0 < len, len < 1 ... in any spelling
+                        if r and "0" in (r[0], r[2]):
+                            return r[1] == "==" or (r[1] == "<=" and r[2] == "0")
+                        if r and "1" in (r[0], r[2]):
+                            return r[1] == "<" and r[2] == "1"
                 return True
             if acc and all(empty_known(p) for p in acc) and not all(empty_true(p) for p in acc):
                 ck.bad("C11.R3", k, where(b.raw["sp"]), "a row accepts a bare target because the directive *has* field names (and rejects the ones without)", fn=b.path)
